@@ -324,7 +324,8 @@ def static_ops():
           _set('atype', 'scalar', 'attr', 2), _set('atype', 'full', 'view', 0), _set('atype', 'len1', 'prop', 3),
           _set('pos', 'full', 'attr', 20), _set('pos', 'len1', 'view', 8),
           _set('n', 'scalar', 'attr', 2.5), _set('n', 'full', 'prop', 40), _set('n', 'len1', 'view', 4),
-          _set('w', 'len1', 'attr', 5), _set('w', 'full', 'view', 40)]
+          _set('w', 'len1', 'attr', 5), _set('w', 'full', 'view', 40),
+          _set('a', 'selfview', 'attr', 0), _set('v', 'selfview', 'view', 0), _set('k', 'selfview', 'view', 0)]
     # indexed writes
     for i, idx in enumerate(IDX):
         o.append(_iset('a', idx, 'rows', 60 + 2 * i))
@@ -451,6 +452,8 @@ def enabled(op, m):
     if k == 'set':
         if op['form'] == 'scalar' and trail_of(m, op['key']) != ():
             return False
+        if op['form'] == 'selfview':
+            return op['key'] in m.props and n >= 2
         return True
     if k == 'iset':
         if op['key'] not in m.props:
@@ -501,6 +504,12 @@ def apply(st, op):
                 pat = (2, 1, 3) if base == 0 else (1, 3, 2)
                 vals = [pat[j % 3] for j in range(n)]
                 value = list(vals)
+        elif form == 'selfview':
+            # the value is a reordered VIEW of the property's own storage (atoms.a = atoms.a[::-1]): an assignment
+            # like any other, the rows must end up reversed
+            vals = [M.recs[n - 1 - j][key] for j in range(n)]
+            value = A.view[key][::-1]
+            assert np.shares_memory(value, A.view[key])
         elif form == 'scalar':
             vals, value = [base] * n, base
         elif form == 'len1':
